@@ -6,23 +6,23 @@ from amaranth import Module
 from ..netlist import Harness
 
 FEATS = ("err", "rty", "stall", "lock", "cti", "bte")
-PHASES = 6
 
 
 def fbit(i, j, p):
-    """Bit j of the token initiator i drives in phase p. Any two different initiators differ in
-    EVERY bit position in phase 2/3 or 4/5; every bit takes both values."""
+    """Bit j of the token initiator i drives in phase p. Any two different initiators (index < 8)
+    differ in EVERY bit position in one of the phases 2..7; every bit takes both values."""
     if p == 0:
         return 0
     if p == 1:
         return 1
-    if p == 2:
-        return ((i >> 0) ^ j) & 1
-    if p == 3:
-        return (((i >> 0) ^ j) & 1) ^ 1
-    if p == 4:
-        return ((i >> 1) ^ (j >> 1)) & 1
-    return (((i >> 1) ^ (j >> 1)) & 1) ^ 1
+    k = (p - 2) // 2            # which bit of the initiator index this phase exposes
+    v = ((i >> k) ^ (j >> k)) & 1
+    return v ^ ((p - 2) & 1)
+
+
+def phases_for(n):
+    """2 constant phases + 2 per bit of the initiator index"""
+    return 2 + 2 * max(1, (max(n, 2) - 1).bit_length())
 
 
 def token(i, p, width, salt=0):
@@ -151,7 +151,7 @@ class ArbModel:
             return self._owner[hw]
         cands = set(range(self.n))
         ctl = tuple((1, 1, 1 if "lock" in self.ifeat[k] else 0) for k in range(self.n))
-        for phase in (2, 3, 4, 5):
+        for phase in range(2, phases_for(self.n)):
             for rej in ((0, 1) if self.rejected else (0,)):
                 letter = self.letter(ctl, phase, (0, 0, 0, 0), rej)
                 outs, _ = self.comp.step(hw, letter)
@@ -218,6 +218,10 @@ def configs(tier):
                 continue
             intrs = [dict(gran=8, feat=intr_features(af, policy, k)) for k in range(n)]
             add(dict(dw=8, gran=8, afeat=af, intrs=intrs))
+    # more initiators than a 2-bit grant can number
+    for n, af in ((5, ()), (5, ("lock",)), (6, ("err", "stall"))) + (() if quick else ((7, ()), (8, ()), (6, ("lock",)), (5, FEATS))):
+        intrs = [dict(gran=8, feat=intr_features(af, "mixed" if n == 6 else "same", k)) for k in range(n)]
+        add(dict(dw=8, gran=8, afeat=tuple(af), intrs=intrs, many=True))
     # granularity ratios (select fan-out), incl. 64-bit bus with 8-bit arbiter granularity
     for dw, gran, igs in ((16, 8, (8, 16)), (32, 8, (32, 8, 16)), (64, 8, (32, 64, 8)), (64, 16, (64, 16)),
                           (32, 16, (32,)), (64, 32, (64, 32))):
